@@ -117,6 +117,7 @@ Section FLc.
       exists pv,
         (forall m, cstep cp (Arg (CProducer c) ce m) = SNext (App m (BP pv))) /\
         (forall v s ty', cstep cp (Run (CCut c ty (CMu CCns v s ty')) ce) = SNext (Run s ((v, BP pv) :: ce))) /\
+        (forall cd tag vals, cut_with_k cd c ce (KDtor tag vals) = interact_val pv (KDtor tag vals)) /\
         Co p cp n (FvThunk t e) pv /\
         (forall y ty0 chi, t = FVar y ty0 chi ->
            exists val, flookup e y = Some (FbP val) /\ vrel p cp n val pv /\ cval val).
@@ -187,9 +188,10 @@ Section FLc.
   Proof.
     intros N t W HW HC Hnv H n Hn G cur ty st c st' e ce Hc Hf Hkd Hk1 Hw Hnc Hl HG Hb Hty He.
     rewrite HC in Hc. apply default_compile_inv in Hc. destruct Hc as [a [sta [s [Ha [Hs Ec]]]]]. subst c.
-    exists (PThunk (new_id a) s ce). split; [|split; [|split]].
+    exists (PThunk (new_id a) s ce). split; [|split; [|split; [|split]]].
     - intros m. simpl. rewrite Hty. reflexivity.
     - intros v s0 ty'. simpl. rewrite Hty. reflexivity.
+    - intros cd tag vals. simpl. destruct cd; reflexivity.
     - apply Co_intro. intros j Hj x args args' k kv Hargs Hd Hk.
       eapply sim_fstep; [reflexivity|]. simpl interact_val.
       eapply (default_body N t W HW H j ltac:(lia) G cur ty st a sta s st' e ce); eauto.
@@ -302,7 +304,7 @@ Section FLc.
           { destruct po; [|reflexivity]. specialize (Hpo eq_refl). simpl in Hpo. rewrite Hk1 in Hpo.
             rewrite andb_false_r in Hpo. discriminate. }
           destruct n as [|n1]; [apply sim_zero|].
-          destruct (Hty (S n1) Hn G cur (compile_ty ty0) st c st1 e ce Ec Hf1 Hkdy Hk1 Hw1 Hnc1) as [pv [Harg [_ [HCo Hvar]]]].
+          destruct (Hty (S n1) Hn G cur (compile_ty ty0) st c st1 e ce Ec Hf1 Hkdy Hk1 Hw1 Hnc1) as [pv [Harg [_ [_ [HCo Hvar]]]]].
           { eapply lifted_ok_grows; eauto. }
           { exact HG. }
           { exact Hb1. }
